@@ -21,6 +21,7 @@ from .world import S
 from . import oracle
 
 WHAT = {
+    "Y7": "every summary line format (v1, v1A, v1B, v2, v3) prints the counts of the summary it is given",
     "Y1": "status-keyed summary tables cover every status the element kind can end with (and STATUS_ORDER prints them)",
     "Y2": "tree walkers visit every feature/rule/scenario/outline row/step of a model tree exactly once, under its status",
     "Y5": "scenarios listed as failing / errored are exactly those with failure / error-class status",
@@ -54,6 +55,9 @@ def build_tree(ix, st):
 
     s0 = scenario("S0", "skipped", [])
     s1 = scenario("S1", "passed", [step("st1", "passed"), step("st2", "pending_warn")])
+    # S1 also runs one background step: it is part of the scenario (iteration), not of scenario.steps
+    st.wobj(s1).fields["_background_steps"] = lst([step("bg1", "passed")], "S1 background steps")
+    st.wobj(s1).fields["background"] = st.alloc(HObj("BackgroundTok", {"name": "bg"}, label="background"))
     s2 = scenario("S2", "failed", [step("st3", "failed")])
     o1 = scenario("O1", "error", [step("st4", "error")])
     o2 = scenario("O2", "hook_error", [step("st5", "hook_error")])
@@ -61,9 +65,13 @@ def build_tree(ix, st):
     rows = lst([o1, o2], "outline rows")
     o = st.alloc(HObj(oc, {"st": S("error"), "_scenarios": lst([], "_scenarios (not built)"), "rows": rows, "steps": lst([]),
                            "background": None, "hook_failed": False, "name": "O", "_background_steps": None}, label="O"))
-    r0 = st.alloc(HObj(rc, {"st": S("skipped"), "run_items": lst([]), "hook_failed": False, "name": "R0"}, label="R0"))
-    r1 = st.alloc(HObj(rc, {"st": S("failed"), "run_items": lst([s2, o]), "hook_failed": False, "name": "R1"}, label="R1"))
-    f = st.alloc(HObj(fc, {"st": S("error"), "run_items": lst([s0, s1, r0, r1, s3]), "hook_failed": False, "name": "F"}, label="F"))
+    # 'scenarios' are the direct children (an outline is ONE object there); 'run_items' is what runs, in order
+    r0 = st.alloc(HObj(rc, {"st": S("skipped"), "run_items": lst([]), "scenarios": lst([]), "background": None,
+                            "hook_failed": False, "name": "R0"}, label="R0"))
+    r1 = st.alloc(HObj(rc, {"st": S("failed"), "run_items": lst([s2, o]), "scenarios": lst([s2, o]), "background": None,
+                            "hook_failed": False, "name": "R1"}, label="R1"))
+    f = st.alloc(HObj(fc, {"st": S("error"), "run_items": lst([s0, s1, r0, r1, s3]), "scenarios": lst([s0, s1, s3]),
+                           "rules": lst([r0, r1]), "background": None, "hook_failed": False, "name": "F"}, label="F"))
     elems["R0"] = ("rule", "skipped", r0)
     elems["R1"] = ("rule", "failed", r1)
     elems["F"] = ("feature", "error", f)
@@ -299,3 +307,55 @@ def check_tables_and_formats(chk, ix):
               "summary formats %s are not built on the shared STATUS_ORDER formatter" % bad)
     else:
         chk.ok("Y6", {"formats": targets}, nontrivial_key="format map")
+
+
+def check_formats_concrete(chk, ix):
+    """Y7: every summary line format prints the numbers of the summary it is given (constant folding on name-keyed
+    summaries as the wired reporter builds them)."""
+    import re as _re
+    chk.rule("Y7", WHAT["Y7"])
+    rm = ix.module("behave.reporter.summary")
+    fmap = rm.consts.get("OUTPUT_FORMAT_MAP")
+    if not isinstance(fmap, ast.Dict):
+        raise AnalysisError("anchor missing: OUTPUT_FORMAT_MAP literal")
+    formats = {k.value: unparse(v) for k, v in zip(fmap.keys, fmap.values)}
+    summaries = [
+        {"passed": 3, "failed": 1, "error": 0, "skipped": 2, "untested": 0},
+        {"passed": 1, "failed": 0, "error": 2, "hook_error": 1, "skipped": 0, "untested": 4, "undefined": 1, "pending": 0},
+        {"passed": 0, "failed": 0, "error": 0, "skipped": 0, "untested": 0},
+        {"passed": 12, "failed": 3, "skipped": 1, "undefined": 2, "untested_undefined": 1, "pending_warn": 1},
+    ]
+    for fname, target in sorted(formats.items()):
+        f = rm.functions.get(target)
+        if f is None:
+            raise AnalysisError("OUTPUT_FORMAT_MAP[%r] = %s is not a function of the module" % (fname, target))
+        for summ in summaries:
+            it = Interp(ix, name="summary format " + fname)
+            it.int_sat = 100000
+            it.list_cap = 100
+            st = State()
+            st.frames = []
+            d = st.alloc(HObj("dict", kind="dict", items=list(summ.items()), label="summary"))
+            outs = it.call_function(st, f, ["scenario", d], {}, None)
+            chk.absorb(it)
+            chk.instance("Y7")
+            if len(outs) != 1 or outs[0][1] != "val" or not isinstance(outs[0][2], str):
+                raise AnalysisError("summary format %s not foldable: %r" % (fname, [(k, v) for _, k, v in outs][:2]))
+            text = outs[0][2]
+            total = sum(summ.values())
+            problems = []
+            # every number printed next to a status name is that status' count; a non-zero count of passed/failed is printed
+            for m in _re.finditer(r"(\d+) (?:scenarios? )?([a-z_]+)\b|([a-z_]+): (\d+)", text):
+                n, name = (m.group(1), m.group(2)) if m.group(1) else (m.group(4), m.group(3))
+                if name in summ and int(n) != summ[name]:
+                    problems.append("prints %s for %s (summary: %d)" % (n, name, summ[name]))
+                if name in ("scenario", "scenarios") and int(n) != total:
+                    problems.append("prints the total %s (summary: %d)" % (n, total))
+            for name in ("passed", "failed"):
+                if summ.get(name) and not _re.search(r"\b%d (?:scenarios? )?%s\b|\b%s: %d\b" % (summ[name], name, name, summ[name]), text):
+                    problems.append("does not print the %d %s" % (summ[name], name))
+            if not problems:
+                chk.ok("Y7", {"format": fname, "summary": summ, "line": text}, nontrivial_key=(fname, tuple(sorted(summ.items()))))
+            else:
+                _fail(chk, "Y7", f.fullname, f.file, f.lineno, "%s on %s: %s" % (fname, summ, problems[0]),
+                      "summary format %s renders %r as %r: %s" % (fname, summ, text, "; ".join(problems)))
